@@ -129,7 +129,7 @@ fn side_door(fi: usize) -> BoxedStrategy<(String, String)> {
             for (p, e) in edits {
                 let mut c: Vec<char> = s.chars().collect();
                 let i = ((p as usize) * (c.len() + 1)) >> 16;
-                match e % 6 {
+                match e % 9 {
                     0 => {
                         if i < c.len() {
                             c.remove(i);
@@ -139,7 +139,10 @@ fn side_door(fi: usize) -> BoxedStrategy<(String, String)> {
                     2 => c.insert(i, '9'),
                     3 => c.insert(i, '.'),
                     4 => c.truncate(i),
-                    _ => c.insert(i, '-'),
+                    5 => c.insert(i, '-'),
+                    6 => c.insert(i, '٣'),
+                    7 => c.insert(i, '\t'),
+                    _ => c.insert(i, '１'),
                 }
                 s = c.into_iter().collect();
             }
